@@ -18,6 +18,7 @@ bool prop(Tape &t, Report &R) {
     if (!out.error.empty()) return R.fail(out.error + " " + s.json());
     return true;
   }
+  HistoryScope hist(t, R);
   GenOpts o;
   o.polarisedPct = 25;
   if (R.thorough()) o.maxCells = 50, o.maxLevels = 12;
